@@ -398,7 +398,12 @@ func c18Publish(region int, maxRejects int) {
 		fail:  vBool("estFails"),
 		relay: chainfee.SatPerKWeight(vI64("relay")),
 	}
-	vAssume(est.rate >= 0 && est.relay >= 0)
+	// estimator answers are fee rates: same domain as every other rate
+	vAssume(est.rate >= 0 && est.relay >= 0 && int64(est.rate) < c18MaxRate && int64(est.relay) < c18MaxRate)
+	if region == c18PubFinding {
+		// a MaxFeeRate that lncfg accepts (>= MaxFeeRateFloor = 100 sat/vb)
+		vAssume(maxRate >= 25_000)
+	}
 
 	// deadline distance at the initial broadcast
 	dists := []int32{0, 1, 2, 3, 4, 1008, 1500}
